@@ -10,7 +10,7 @@ E2 = "contract-based deductive verification: the unmodified kaira functions are 
 
 CHECKS = {
     "C01": dict(
-        text="For every enumerated code configuration (families x parameters x information sets x random generators) the contract clauses forward(x)==x.G, calculate_syndrome(y)==y.H^T, syndrome(forward(m))==0 and syndrome(y)==0 => y in rowspace(G) (n<=12 quick / 16 thorough) are discharged for ALL input bit vectors of four layouts by symbolic execution of the real methods; the object invariant (G binary rank k, H binary rank n-k, G.H^T=0, advertised n,k) is a ground obligation evaluated exactly on what the real constructors built. Bound that remains: the configuration grid.",
+        text="For every enumerated code configuration (families x parameters x information sets x random generators) the contract clauses forward(x)==x.G, calculate_syndrome(y)==y.H^T, syndrome(forward(m))==0 and syndrome(y)==0 => y in rowspace(G) (n<=12 quick / 16 thorough) are discharged for ALL input bit vectors of four layouts by symbolic execution of the real methods; the object invariant (G binary rank k, H binary rank n-k, G.H^T=0, advertised n,k) is a ground obligation evaluated exactly on what the real constructors built. Bound that remains: the configuration grid. Construction sequences: seven encoders of one family built in one process with alternating information sets are each checked against their own G and H (state carried between constructions).",
         note="Trusted: vk engine E2 (op table pinned to torch meta kernels + differential cross-check every run), z3, exact GF(2) ground kernel, rank-nullity lemma. Bodies of the SVD-free null-space/row-reduction helpers are covered through the invariant of every constructed code, not symbolically.",
         design="7/C01",
         technique=E2 + "; closed obligations by exact GF(2) rank computation",
@@ -28,7 +28,7 @@ CHECKS = {
         technique="contracts as closed obligations on the objects the real constructors build, decided exactly by the ground GF(2) kernel (complete enumeration); distance clause also proved symbolically through the real forward() for small k",
     ),
     "C02": dict(
-        text="t-error correction (decoded == m and reported errors == e for r = m.G xor e, wt(e) <= t, t from the ADVERTISED distance) is discharged for ALL messages and ALL error patterns at once - symbolic m and e with a cardinality constraint - for the syndrome-lookup decoder (redundancy <= 4 quick / 6 thorough), the brute-force ML decoder (k <= 4 / 6), the Hamming single-error inverse and the Reed-Muller nearest-codeword inverse, by path-complete symbolic execution of the real forward() (per-row loops, .item(), dict lookup, torch.equal, argmin). The minimum-distance clause of the complete decoders is discharged for EVERY received word (n <= 12). The syndrome table is checked as a ground obligation (complete, every entry a coset leader). Berlekamp-Massey: for the length-7 BCH codes (thorough: also (15,.) codes up to 20000 paths) the decoder is executed path-completely on a symbolic message and error pattern (it concretises every bit, so every feasible path = every (codeword, pattern) pair runs on the real code); larger codes and the Reed-Muller majority decoder are covered by the bounded stand-in only and are not counted as proved.",
+        text="t-error correction (decoded == m and reported errors == e for r = m.G xor e, wt(e) <= t, t from the ADVERTISED distance) is discharged for ALL messages and ALL error patterns at once - symbolic m and e with a cardinality constraint - for the syndrome-lookup decoder (redundancy <= 4 quick / 6 thorough), the brute-force ML decoder (k <= 4 / 6), the Hamming single-error inverse and the Reed-Muller nearest-codeword inverse, by path-complete symbolic execution of the real forward() (per-row loops, .item(), dict lookup, torch.equal, argmin). The minimum-distance clause of the complete decoders is discharged for EVERY received word (n <= 12). The syndrome table is checked as a ground obligation (complete, every entry a coset leader). Berlekamp-Massey: for the length-7 BCH codes (thorough: also (15,.) codes up to 20000 paths) the decoder is executed path-completely on a symbolic message and error pattern (it concretises every bit, so every feasible path = every (codeword, pattern) pair runs on the real code); larger codes and the Reed-Muller majority decoder are covered by the bounded stand-in only and are not counted as proved. Received words are also given as uint8/int64 tensors (integer-dtype variants), and as multi-block (..., m*n) layouts.",
         note="Trusted: C01's contract (received words are formed from the published G), vk engine, z3. Out of reach of proof: Berlekamp-Massey/Chien (full concretisation of the word; deep algebraic theorem) and the majority-logic decoder. Known finding: RS-style codes advertise t beyond their true distance.",
         design="7/C02",
         technique=E2 + "; bounded native stand-in for Berlekamp-Massey and majority-logic decoding",
@@ -47,7 +47,7 @@ CHECKS = {
         technique=E2 + "; RNG replaced by its contract (fresh quantified symbols)",
     ),
     "C17": dict(
-        text="Fold loops of SequentialModel/ConfigurableModel/CompositeConstraint/apply_constraint_chain: verification conditions generated from the real AST with uninterpreted stages and an UNBOUNDED stage count (invariant initiation/preservation/post, one call per stage in order, argument forwarding) discharged by z3. The real forward() methods of sequential, DeepJSCC, channel-code, Wyner-Ziv (all 16 presence combinations), feedback (1..5 rounds) and multiple-access models (1..3 users, shared/separate layouts, symbolic tensors) are executed with uninterpreted recording stubs, so the order/exactly-once/argument claims hold for all stage functions per enumerated size. ParallelModel: the thread pool is replaced by its contract and EVERY completion order admissible for the worker count (n <= 4 quick / 5 thorough, workers 1, 2, n, default) is enumerated, with and without a failing branch; refuting orders are replayed on the real ThreadPoolExecutor with event-gated branches. BranchingModel: all 2^n truth assignments of uninterpreted conditions. add_step/remove_step of ConfigurableModel and ParallelModel: list-model VCs from the real AST over z3 sequences of UNBOUNDED length (view' = view ++ [s]; view' = view without position i; TypeError / IndexError before any mutation).",
+        text="Fold loops of SequentialModel/ConfigurableModel/CompositeConstraint/apply_constraint_chain: verification conditions generated from the real AST with uninterpreted stages and an UNBOUNDED stage count (invariant initiation/preservation/post, one call per stage in order, argument forwarding) discharged by z3. The real forward() methods of sequential, DeepJSCC, channel-code, Wyner-Ziv (all 16 presence combinations), feedback (1..5 rounds) and multiple-access models (1..3 users, shared/separate layouts, symbolic tensors) are executed with uninterpreted recording stubs, so the order/exactly-once/argument claims hold for all stage functions per enumerated size. ParallelModel: the thread pool is replaced by its contract and EVERY completion order admissible for the worker count (n <= 4 quick / 5 thorough, workers 1, 2, n, default) is enumerated, with and without a failing branch; refuting orders are replayed on the real ThreadPoolExecutor with event-gated branches. BranchingModel: all 2^n truth assignments of uninterpreted conditions. add_step/remove_step of ConfigurableModel and ParallelModel: list-model VCs from the real AST over z3 sequences of UNBOUNDED length (view' = view ++ [s]; view' = view without position i; TypeError / IndexError before any mutation). Histories reuse one stage object at several positions; the multiple-access model is also run with an aliasing pass-through encoder, one tensor object for all users and two consecutive calls (inputs unmodified).",
         note="Trusted: concurrent.futures contract as stated in DESIGN 4.2 (schedules are those the contract admits, not observed timings); free term algebra of stubs; foldvc AST translation. Add/remove-step histories: by induction over the proved mutator contracts; exhaustive histories to length 3/4 as a bounded cross-check.",
         design="7/C17",
         technique="contracts on the real forward() methods: unbounded fold-loop VCs from the AST (z3, uninterpreted stages); execution with uninterpreted stubs; thread pool replaced by its contract with exhaustive admissible completion orders",
@@ -97,7 +97,7 @@ CHECKS = {
         engine="vk-E1-vcgen",
     ),
     "C06": dict(
-        text="For symbolic received points y in C (PAM/BPSK: as their code expects) and symbolic noise variance > 0, constellation and labels read from the real demodulator: hard decision = a point at minimum Euclidean distance (for all y); soft output llr_k == kappa.(min over points labelled 1 - min over points labelled 0)/sigma^2 with kappa > 0 read off one evaluation and then PROVED for all y, sigma^2 (scalar, per-symbol); sign agrees with the hard decision; llr scales as 1/sigma^2 - for BPSK, QPSK, PSK <= 32, QAM <= 64, PAM <= 64, OQPSK, pi/4-QPSK (both tables); DPSK family on the decision variable z (helper contract + modular proof of forward). DPSK hard decisions (atan2) and 64-PSK/256-QAM identity clauses: bounded dense grids.",
+        text="For symbolic received points y in C (PAM/BPSK: as their code expects) and symbolic noise variance > 0, constellation and labels read from the real demodulator: hard decision = a point at minimum Euclidean distance (for all y); soft output llr_k == kappa.(min over points labelled 1 - min over points labelled 0)/sigma^2 with kappa > 0 read off one evaluation and then PROVED for all y, sigma^2 (scalar, per-symbol); sign agrees with the hard decision; llr scales as 1/sigma^2 - for BPSK, QPSK, PSK <= 32, QAM <= 64, PAM <= 64, OQPSK, pi/4-QPSK (both tables); DPSK family on the decision variable z (helper contract + modular proof of forward). DPSK hard decisions (atan2) and 64-PSK/256-QAM identity clauses: bounded dense grids. pi/4-QPSK with carried phase: after an odd or even number of previously consumed symbols (default training mode) hard and soft output use the constellation of the absolute symbol position, for every y.",
         note="Trusted: vk engine; the sound generalisation step in c06.py (nonlinear monomials abstracted by fresh reals, accepted only on unsat; refutations always come from the exact claim and are replayed natively). Floats as reals; float32 tables exact.",
         design="7/C06",
         technique=E2 + "; nearest-point / max-log queries linearised by cancelling |y|^2",
@@ -127,7 +127,7 @@ CHECKS = {
         technique=E2 + "; bounded native stand-in for the iterative PAPR constraint",
     ),
     "C09": dict(
-        text="The whole real ChannelCodeModel.forward (real encoder, modulator, IdentityConstraint, channel, demodulator, decoder) is executed on a symbolic message for 8 (code, decoder) x 6 modulation pairings with (a) the ideal channel, (b) a LambdaChannel displacing every symbol by a symbolic delta within half the minimum distance - proved for the larger polyhedral set of all delta with delta.(c_j - c_i) < |c_j - c_i|^2/2, which contains the ball by the per-constellation triangle lemma (discharged separately by z3) - and (c) a LambdaChannel flipping at most t code bits per block (BPSK/QPSK component sign flips): decoded == message for ALL messages and ALL admissible displacements / flip patterns. Soft-decision chains (soft demodulation with the noise variance forwarded through the pipeline into Wagner / SC min-sum / soft Reed-Muller decoders; BPSK and QPSK): ideal channel for every noise variance > 0 (symbolic), displaced symbols on a grid of variances. Stage order and fold are C17; per-stage contracts C01/C02/C05/C06. Berlekamp-Massey in the chain: bounded stand-in.",
+        text="The whole real ChannelCodeModel.forward (real encoder, modulator, IdentityConstraint, channel, demodulator, decoder) is executed on a symbolic message for 8 (code, decoder) x 6 modulation pairings with (a) the ideal channel, (b) a LambdaChannel displacing every symbol by a symbolic delta within half the minimum distance - proved for the larger polyhedral set of all delta with delta.(c_j - c_i) < |c_j - c_i|^2/2, which contains the ball by the per-constellation triangle lemma (discharged separately by z3) - and (c) a LambdaChannel flipping at most t code bits per block (BPSK/QPSK component sign flips): decoded == message for ALL messages and ALL admissible displacements / flip patterns. Soft-decision chains (soft demodulation with the noise variance forwarded through the pipeline into Wagner / SC min-sum / soft Reed-Muller decoders; BPSK and QPSK): ideal channel for every noise variance > 0 (symbolic), displaced symbols on a grid of variances. Stage order and fold are C17; per-stage contracts C01/C02/C05/C06. Berlekamp-Massey in the chain: bounded stand-in. Consecutive transmissions: three batched transmissions with odd symbol counts through ONE pipeline with the stateful pi/4-QPSK pair in default training mode, all messages.",
         note="Trusted: vk engine; triangle lemma proved on the exact rational constellation values. Pairings are an enumerated grid (quick: at most 16 code bits per call). Soft chains with displaced QPSK symbols for 8-bit codes exceed the solver budget (quadratic LLRs) and are left to C10/C11/C15.",
         design="7/C09",
         technique=E2 + " on the whole pipeline; displacement precondition linearised through a separately proved triangle lemma",
